@@ -147,7 +147,18 @@ def ready_models(bits):
         ex.store(env, node, guard, r + ".0", new, False)
         ex.events.append(engine.Event("ready_remove", guard, node, place=r, bit=m.group(1)))
         return True
+    def m_insert(ex, env, node, guard, ev, dest, dty):
+        r = ev.args[0]["val"].ref
+        m = re.search(r"Ready::(\w+)$", ev.args[1]["text"])
+        if r is None or not m or m.group(1) not in bits:
+            return False
+        w = word(ex, env, r)
+        new = Val("(bvor %s %s)" % (w.term, bv(bits[m.group(1)], 16)), 16)
+        ex.store(env, node, guard, r + ".0", new, False)
+        ex.events.append(engine.Event("ready_insert", guard, node, place=r, bit=m.group(1)))
+        return True
     return [
+        (r"ready::Ready::insert::<.*>$", m_insert),
         (r"connection::Connection::<.*>::readiness(_mut)?$", m_readiness),
         (r"Readiness::filter_interest$", m_filter),
         (r"ready::Ready::(is_empty|is_readable|is_writable|is_error|is_hup)$", m_test),
